@@ -195,16 +195,21 @@ def grid_cases(ctx):
         fmt = r.choice(["sdmf", "sdmf", "mdmf"])
         verify = r.random() < 0.5
         scenario = r.choice(["intact", "delete", "delete", "stale", "newer-unrecoverable", "newer-unrecoverable", "corrupt", "far-stale", "far-stale",
-                             "competing", "competing"])
+                             "competing", "competing", "far-newer-unrecoverable"])
         # the refusal rules are exercised in every run, through both entry points
         FORCED = [("newer-unrecoverable", "check_and_repair"), ("competing", "check_and_repair"), ("competing", "repair"), ("newer-unrecoverable", "repair"),
-                  ("late-newer-unrecoverable", "repair"), ("late-competing", "repair")]
+                  ("late-newer-unrecoverable", "repair"), ("late-competing", "repair"), ("far-newer-unrecoverable", "repair"),
+                  ("far-newer-unrecoverable", "check_and_repair")]
         forced_via = None
         if i < len(FORCED):
             scenario, forced_via = FORCED[i]
         if scenario.endswith("competing") and N < 2 * k:
             k, N = r.choice([(2, 4), (2, 5), (1, 3), (3, 6)])
             S = r.choice([N, N + 1])
+        if scenario == "far-newer-unrecoverable":
+            # many more servers than shares: the residue of a newer version sits far down the permuted server list, behind a
+            # run of servers that hold nothing -- a survey that gives up after a few empty servers never sees it
+            k, N, S = 3, 10, 20
         if scenario == "far-stale":
             # the newest version survives only on the servers a 2k-server read survey reaches last
             k, N = r.choice([(3, 10), (2, 8), (3, 9)])
@@ -251,6 +256,25 @@ def grid_cases(ctx):
                             chosen = keys[:-1]
                     for kk in chosen:
                         g.write_share(cur[kk], snap1[kk])
+                elif sc == "far-newer-unrecoverable":
+                    import os as _os
+                    from allmydata.storage.server import storage_index_to_dir
+                    g.run(g.mutable_overwrite(node, b"version-two!"))
+                    cur = {(sh.server, sh.shnum): sh for sh in g.find_shares(node.get_uri())}
+                    content_by_ver[share_version(g, next(iter(cur.values())))] = b"version-two!"
+                    order = g.storage_broker_order(node.get_uri())
+                    empty_far = [srv for srv in order[14:18] if srv not in set(kk[0] for kk in cur)]
+                    keys = sorted(kk for kk in cur if kk in snap1)
+                    moved = keys[:min(k - 1, len(empty_far))]
+                    si_dir = storage_index_to_dir(g._si(node.get_uri()))
+                    for (kk, srv) in zip(moved, empty_far):
+                        d_ = _os.path.join(g.server(srv).sharedir, si_dir)
+                        _os.makedirs(d_, exist_ok=True)
+                        with open(_os.path.join(d_, "%d" % kk[1]), "wb") as f_:       # version 2's share, far away
+                            f_.write(g.read_share(cur[kk]))
+                    for kk in keys:                                                   # everything near is version 1 again
+                        g.write_share(cur[kk], snap1[kk])
+                    state["newest"] = b"version-two!"
                 elif sc == "competing":
                     # two different versions with the SAME sequence number, both recoverable: publish 2A, roll every share back
                     # to version 1, publish 2B, then put 2A back on some of the shares
